@@ -544,6 +544,9 @@ func (x *Exec) cutLoop(s *State, ord int, label string, spec *LoopSpec, pos toke
 	top := x.top.Key
 	ws := &writeSet{vars: map[types.Object]bool{}}
 	x.collectWrites(ws, writes...)
+	// a snapshot left by an earlier analysis of this loop (another path reaching it) must not be seen by the entry
+	// checks: iterStart(ord, e) is the current value of e there
+	delete(f.iterStarts, ord)
 
 	// 1. invariant on entry
 	if spec != nil {
@@ -771,6 +774,7 @@ func (x *Exec) execRange(s *State, n *ast.RangeStmt) *State {
 func (x *Exec) rangeLoop(s *State, n *ast.RangeStmt, ord int, label string, spec *LoopSpec, idxObj, keyObj, valObj types.Object, length *Term, pre func(*State)) *State {
 	f := x.frame()
 	top := x.top.Key
+	delete(f.iterStarts, ord)
 	ws := &writeSet{vars: map[types.Object]bool{}}
 	x.collectWrites(ws, n.Body)
 	ws.vars[idxObj] = true
